@@ -77,6 +77,16 @@ GroupSet(s) ==
          [names : {<<>>, <<1>>},
           conds : {<<Entry(0, <<c>>), Entry(0, <<d>>)>> : c \in [arg : {0}, op : OpSet, val : {1, 2}], d \in [arg : {0}, op : OpSet, val : {0, 1, 2, 3}]},
           act : {"errno"}]
+    [] s = "eqruns" ->     \* C03: one syscall with three or four alternatives, each a single Equal test - on alternating arguments, with operands
+                           \* whose high words differ (0..3 at W = 1: high word 0 or 1), with another operation between them
+         LET E == [arg : {0, 1}, op : {"Equal"}, val : {0, 1, 2, 3}]
+             E2 == [arg : {0, 1}, op : {"Equal"}, val : {1, 2}]
+             G == {[arg |-> 0, op |-> "GreaterThan", val |-> 1], [arg |-> 1, op |-> "BitsSet", val |-> 2]} IN
+         [names : {<<>>},
+          conds : {<<Entry(0, <<a>>), Entry(0, <<b>>), Entry(0, <<c>>)>> : a \in E, b \in E, c \in E}
+                  \cup {<<Entry(0, <<a>>), Entry(0, <<g>>), Entry(0, <<b>>), Entry(0, <<c>>)>> : a \in E2, b \in E2, c \in E2, g \in G}
+                  \cup {<<Entry(0, <<a>>), Entry(0, <<b>>), Entry(0, <<c>>), Entry(0, <<d>>)>> : a \in E2, b \in E2, c \in E2, d \in E2},
+          act : {"errno"}]
     [] s = "pairs" ->      \* C03: AND of two conditions on the SAME argument, every pair of operations and operands (0 and the
                            \* largest value included: conditions that hold for every argument, or for none)
          [names : {<<>>},
@@ -320,7 +330,7 @@ EventSeq(s) ==
          SetToSeq({Ev(ar, nr, NoArgs) : ar \in {"own", "other"}, nr \in 0..NrMax})
     [] s \in {"groups2", "chain", "kactions"} ->
          SetToSeq({Ev(ar, nr, NoArgs) : ar \in {"own", "other"}, nr \in 0..NrMax})
-    [] s \in {"rich", "merge", "many", "manywide", "allops", "defects", "defects2", "deep", "pairs", "mergeops", "subsume"} ->
+    [] s \in {"rich", "merge", "many", "manywide", "allops", "defects", "defects2", "deep", "pairs", "mergeops", "subsume", "eqruns"} ->
          SetToSeq({Ev(ar, nr, a) : ar \in {"own", "other"},
                                    nr \in Sys \cup {NSys, X32Bit, X32Bit + 1}, a \in Args2})
     [] s \in {"long1", "long2", "longconds", "klong"} -> LongEvents(s)
